@@ -65,6 +65,12 @@ def stmt_muts(st: ast.AST, aliases: Dict[str, Tuple[str, str]]) -> List[Mut]:
                 return out
             aliases.pop(st.targets[0].id, None)
         for t in st.targets:
+            if isinstance(t, (ast.Tuple, ast.List)):
+                # self.in_links, self.in_link_slots = [], []
+                vals = st.value.elts if isinstance(st.value, (ast.Tuple, ast.List)) and len(st.value.elts) == len(t.elts) else [st.value] * len(t.elts)
+                for tt, vv in zip(t.elts, vals):
+                    if isinstance(tt, ast.Attribute) and tt.attr in TABLES:
+                        out.append(Mut("create", tt.attr, norm(tt.value), None, norm(vv), st))
             if isinstance(t, ast.Attribute) and t.attr in TABLES:
                 out.append(Mut("create", t.attr, norm(t.value), None, norm(st.value), st))
             elif isinstance(t, ast.Subscript):
